@@ -198,8 +198,8 @@ CHECKS = {
             "markers are <b>mN</b> elements and the comparison ignores whitespace (whitespace is C02's business)",
             "a once handle created with WithComponent renders that component and ignores the call's block",
         ],
-        "quick": {"rapid_checks": 12, "timeout": 900},
-        "thorough": {"rapid_checks": 60, "timeout": 3000, "shards": 8},
+        "quick": {"rapid_checks": 24, "timeout": 900},
+        "thorough": {"rapid_checks": 100, "timeout": 3000, "shards": 8},
     },
     "C14": {
         "pkg": "./checks/c14",
